@@ -156,6 +156,30 @@ pub fn expect_panic<T: std::fmt::Debug>(ctx: &mut Ctx, form: &str, args: &dyn Fn
         ctx.viol(format!("{} {}", form, a.join(" ")), "documented failure case returned a value instead of panicking", a, "panic".into(), format!("{:?}", r));
     }
 }
+/// A String handed back by the library may (under a defect in the unchecked byte-to-String conversions) hold
+/// bytes that are not UTF-8; formatting or slicing such a String in the harness would panic outside any
+/// guarded call.  This reports it as a violation and returns a lossy, valid copy to continue with.
+pub fn clean_str(ctx: &mut Ctx, form: &str, s: String) -> String {
+    match String::from_utf8(s.into_bytes()) {
+        Ok(s) => s,
+        Err(e) => {
+            let b = e.into_bytes();
+            let head: Vec<u8> = b.iter().take(24).copied().collect();
+            ctx.viol(format!("invalid-utf8:{}:{:?}", form, head), "the library returned a String that is not valid UTF-8", vec![form.to_string()], "valid (ASCII) text".into(), format!("bytes {:?}", head));
+            String::from_utf8_lossy(&b).into_owned()
+        }
+    }
+}
+pub fn clean_strs(ctx: &mut Ctx, form: &str, v: Vec<String>) -> Vec<String> {
+    v.into_iter().map(|s| clean_str(ctx, form, s)).collect()
+}
+/// `call` for closures returning a String: the result is passed through `clean_str`.
+pub fn call_str(ctx: &mut Ctx, form: &str, f: impl FnOnce() -> String) -> Out<String> {
+    match call(ctx, f) {
+        Out::Ret(s) => Out::Ret(clean_str(ctx, form, s)),
+        o => o,
+    }
+}
 /// Expect `None` without a panic.
 pub fn expect_none<T: std::fmt::Debug>(ctx: &mut Ctx, form: &str, args: &dyn Fn() -> Vec<String>, got: Out<Option<T>>) {
     ctx.compared(1);
